@@ -131,6 +131,7 @@ class Project(MessageHandler):
 
         self.scoreboard: Optional[Scoreboard] = None
         self.scoreboardNoLeaves: Optional[Scoreboard] = None
+        self._scheduledScenarios: set[int] = set()  # scenario indices schedule() has processed
 
         self.reportContexts: list[Any] = []
         self.outputDir: str = "./"
@@ -329,6 +330,13 @@ class Project(MessageHandler):
                 continue
 
             scIdx: int = sc.sequenceNo - 1
+
+            # A scenario is scheduled once. Calling schedule() again must not retry the tasks that
+            # could not be placed: their bookings and limit counters of the first attempt are
+            # still on record, a second attempt would book on top of them
+            if scIdx in self._scheduledScenarios:
+                continue
+            self._scheduledScenarios.add(scIdx)
 
             # Propagate inherited values
             AttributeBase.setMode(1)
